@@ -257,6 +257,14 @@ func (runInfo *runInfoStruct) runLetsStmt(stmt *ast.LetsStmt) {
 		} else {
 			rvs[i] = runInfo.rv
 		}
+		if len(stmt.RHSS) > 1 && rvs[i].CanAddr() && rvs[i].Kind() != reflect.Struct {
+			// several right side values: each one is the value the element or field
+			// holds now, not what an assignment of this statement stores into it
+			// later (a[0], a[1] = a[1], a[0])
+			value := reflect.New(rvs[i].Type()).Elem()
+			value.Set(rvs[i])
+			rvs[i] = value
+		}
 	}
 
 	if len(rvs) == 1 && len(stmt.LHSS) > 1 {
